@@ -38,11 +38,16 @@ def scenario_dir(rng, base):
     serial = [0]
     for k, n in ((1, 2), (2, 2), (3, 1)):
         write_tree(base, {c06.page_name(k): c06.page_text(k, n, serial)})
+    # a page whose notes carry no tag, property or link of their own: removing it issues no commit of its own
+    serial[0] += 2
+    write_tree(base, {c06.page_name(5): "# page 5 #hv0\n\n- note%d r1\n- note%d r1\n\n" % (serial[0] - 1, serial[0])})
     with freeze_time(dt.datetime(2024, 6, 1, 12)):
         Z.db_create(base)
     ops = [["addnote", 1], ["editnote", 2, 0], ["newpage", 4, 2], ["addnote", 3], ["editnote", 1, 0]]
     rng.shuffle(ops)
-    applied = ops[:rng.randint(3, 5)]
+    applied = ops[:rng.randint(3, 5)] + [["editnote", 5, rng.randint(0, 1)]]
+    if ["editnote", 2, 0] not in applied:
+        applied.append(["editnote", 2, 0])      # every run visits the partial-removal window of the page with properties
     for op in applied:
         c06.apply_real(base, op, serial, None)
     return ops, applied
@@ -56,10 +61,37 @@ def final_state(d):
     return files, idx, comp
 
 
-def judge(d, orig_files):
+ZID_RE = re.compile(r"\b(\d{6})#\w{2,3}\b")
+
+
+def normal_state(files, idx):
+    """files and index with the ZID suffixes blanked (which suffix a note gets may depend on the crash point)"""
+    nf = {p: ZID_RE.sub(r"\1#__", t) for p, t in files.items()}
+    ni = {}
+    for n in idx:
+        m = dict(n)
+        m["zid"] = ZID_RE.sub(r"\1#__", m["zid"] or "")
+        m["body"] = ZID_RE.sub(r"\1#__", m["body"])
+        ni.setdefault(n["page"], []).append(m)
+    return nf, ni
+
+
+def judge(d, orig_files, ref=None):
     """The property's clauses on the state after crash + re-run."""
     files, idx, comp = final_state(d)
     probs = []
+    judge.ref_pages = set()
+    if ref is not None:
+        nf, ni = normal_state(files, idx)
+        rf, ri = ref
+        pages = {p for p in set(nf) | set(rf) if nf.get(p) != rf.get(p)} | {p for p in set(ni) | set(ri) if ni.get(p) != ri.get(p)}
+        if pages:
+            judge.ref_pages = pages
+            p0 = sorted(pages)[0]
+            a, b = (rf.get(p0) or "").split("\n"), (nf.get(p0) or "").split("\n")
+            line = next(((x, y) for x, y in zip(a, b) if x != y), (None, None))
+            probs.append("the state differs from the state after an uninterrupted run on %s (first differing line: uninterrupted %r, "
+                         "after crash + re-run %r)" % (sorted(pages), line[0], line[1]))
     if any(n["zid"] is None for n in comp):
         probs.append("a note in a file has no ZID although the index was brought up to date")
     bad_pages = set()
@@ -98,6 +130,21 @@ def explore(eng, oc, rng, cmd, tmp):
     ops_applied = ops[1]
     ops = ops[1]
     orig = W.user_files(base)
+    base_idx = W.dump_index(base)
+
+    def has_own_rows(k):
+        """the unchanged remove_file_by_name commits while removing a page only for property links and for tags that no
+        note of another page carries"""
+        name = c06.page_name(k)
+        mine = [n for n in base_idx if n["page"] == name]
+        others = [n for n in base_idx if n["page"] != name]
+        for n in mine:
+            if n["props"]:
+                return True
+            for f in ("areas", "contexts", "people", "projects"):
+                if any(all(t not in o[f] for o in others) for t in n[f]):
+                    return True
+        return False
     # full trace of an uninterrupted run
     full = os.path.join(tmp, "full")
     shutil.copytree(base, full)
@@ -106,6 +153,8 @@ def explore(eng, oc, rng, cmd, tmp):
     trace = [l.split(" ", 2) for l in open(tr).read().strip().split("\n")]
     oc.count("%s_effects" % cmd, len(trace))
     ref_probs = judge(full, orig)
+    rfiles, ridx, _ = final_state(full)
+    ref = normal_state(rfiles, ridx)
     if rc != 0 or ref_probs:
         oc.spec_fail.append(({"cmd": cmd, "ops": ops, "crash_at": None}, {"rc": rc, "problems": ref_probs}, "uninterrupted run", None))
         return
@@ -117,8 +166,8 @@ def explore(eng, oc, rng, cmd, tmp):
         label, who = trace[k - 1][1], trace[k - 1][2].strip()
         before = trace[:k - 1]
         oc.nontriv((cmd, k, label, who))
-        probs = judge(d, orig)
-        bad_pages = set(getattr(judge, "bad_pages", set()))
+        probs = judge(d, orig, ref)
+        bad_pages = set(getattr(judge, "bad_pages", set())) | set(getattr(judge, "ref_pages", set()))
         if rc2 != 0:
             probs.insert(0, "the re-run failed (exit %d)" % rc2)
         trig = None
@@ -139,8 +188,18 @@ def explore(eng, oc, rng, cmd, tmp):
                 order = sorted({o[1] for o in ops_applied if o[0] in ("editnote", "addnote", "newpage")})
                 done_pages = order[:commits_done]
                 names = {c06.page_name(p) for p in done_pages if p in stamped_pages}
-                if names and bad_pages <= names and all("disagree" in x for x in probs):
-                    trig = "stamp_commit_before_writeback"
+                # the page being re-indexed when the kill came: notes removed so far were made durable by a commit INSIDE
+                # remove_file_by_name (only pages with property links / tags of their own have such commits)
+                last_page_commit = max([i for i, l in enumerate(before) if l[1] == "commit" and l[2].strip() == "commit"] or [-1])
+                inner = [l for l in before[last_page_commit + 1:] if l[1] == "commit" and l[2].strip() == "remove_file_by_name"]
+                pip = order[commits_done] if commits_done < len(order) else None
+                partial = set()
+                if inner and pip is not None and has_own_rows(pip):
+                    partial = {c06.page_name(pip)}
+                if (names | partial) and bad_pages <= (names | partial) and all("disagree" in x or "uninterrupted" in x for x in probs):
+                    trig = "partial_removal_commit" if (bad_pages & partial) - names else "stamp_commit_before_writeback"
+                    if (bad_pages & partial) and (bad_pages & names):
+                        oc.known_hit.setdefault("stamp_commit_before_writeback", "killed before effect %d (%s in %s)" % (k, label, who))
         if probs:
             oc.spec_fail.append(({"cmd": cmd, "ops": ops, "crash_before_effect": k, "effect": label, "in": who,
                                   "trace": [" ".join(x).strip() for x in trace]}, probs[:3], "converges", trig))
@@ -160,7 +219,8 @@ def run(oc, tier, seed):
                "every boundary between consecutive external effects (file opened for writing, unlink, SQL commit) of `db "
                "reindex` and of `db create` incl. their write-back events is hit by killing a child process right before the "
                "effect; the command is re-run; judged: re-run exits 0, every note has a ZID, index == recompiled files, no "
-               "duplicate ZID, no user text lost; non-trivial = every crash point")
+               "duplicate ZID, no user text lost, files and index equal to those after the uninterrupted run (ZID suffixes blanked); "
+               "non-trivial = every crash point")
     for i in range(n):
         for cmd in ("reindex", "create"):
             with Z.tmpdir("c13_") as tmp:
